@@ -14,17 +14,34 @@ pub struct Form {
     pub file: Vec<u8>,
     /// fields after the file part (browsers may send them; S3 ignores them)
     pub after: Vec<(String, String)>,
+    /// (index into `fields`, shape): how that field's part spells its headers. 1 = a `Content-Type` line AFTER
+    /// Content-Disposition (curl `;type=`), 2 = a `Content-Type` line BEFORE it (.NET's MultipartFormDataContent),
+    /// 3 = the header name in lower case, 4 = no blank after the colon and the parameters without a blank after ';'
+    pub part_shapes: Vec<(usize, u8)>,
+    /// the file part names its Content-Type before its Content-Disposition
+    pub file_type_first: bool,
 }
 
 impl Form {
     pub fn encode(&self) -> Vec<u8> {
         let mut out = Vec::new();
-        for (n, v) in &self.fields {
-            out.extend_from_slice(format!("--{}\r\nContent-Disposition: form-data; name=\"{n}\"\r\n\r\n{v}\r\n", self.boundary).as_bytes());
+        for (i, (n, v)) in self.fields.iter().enumerate() {
+            let headers = match self.part_shapes.iter().find(|(j, _)| *j == i).map(|x| x.1) {
+                Some(1) => format!("Content-Disposition: form-data; name=\"{n}\"\r\nContent-Type: text/plain; charset=utf-8\r\n"),
+                Some(2) => format!("Content-Type: text/plain; charset=utf-8\r\nContent-Disposition: form-data; name=\"{n}\"\r\n"),
+                Some(3) => format!("content-disposition: form-data; name=\"{n}\"\r\n"),
+                Some(4) => format!("Content-Disposition:form-data;name=\"{n}\"\r\n"),
+                _ => format!("Content-Disposition: form-data; name=\"{n}\"\r\n"),
+            };
+            out.extend_from_slice(format!("--{}\r\n{headers}\r\n{v}\r\n", self.boundary).as_bytes());
         }
-        out.extend_from_slice(
-            format!("--{}\r\nContent-Disposition: form-data; name=\"file\"; filename=\"{}\"\r\nContent-Type: {}\r\n\r\n", self.boundary, self.file_name, self.file_type).as_bytes(),
-        );
+        if self.file_type_first {
+            out.extend_from_slice(format!("--{}\r\nContent-Type: {}\r\nContent-Disposition: form-data; name=\"file\"; filename=\"{}\"\r\n\r\n", self.boundary, self.file_type, self.file_name).as_bytes());
+        } else {
+            out.extend_from_slice(
+                format!("--{}\r\nContent-Disposition: form-data; name=\"file\"; filename=\"{}\"\r\nContent-Type: {}\r\n\r\n", self.boundary, self.file_name, self.file_type).as_bytes(),
+            );
+        }
         out.extend_from_slice(&self.file);
         out.extend_from_slice(b"\r\n");
         for (n, v) in &self.after {
@@ -75,5 +92,5 @@ pub fn signed_form(key: &str, policy_json: &str, ak: &str, secret: &str, amz_dat
         ("x-amz-date".to_owned(), amz_date.to_owned()),
         ("x-amz-signature".to_owned(), sig),
     ]);
-    Form { boundary: "----verifBoundary7MA4YWxkTrZu0gW".to_owned(), fields, file_name: "f.bin".to_owned(), file_type: "application/octet-stream".to_owned(), file: file.to_vec(), after: Vec::new() }
+    Form { boundary: "----verifBoundary7MA4YWxkTrZu0gW".to_owned(), fields, file_name: "f.bin".to_owned(), file_type: "application/octet-stream".to_owned(), file: file.to_vec(), after: Vec::new(), part_shapes: Vec::new(), file_type_first: false }
 }
